@@ -1101,7 +1101,8 @@ META = {
     "text": "Decides on the source, for all omega/x0/xi symbolically: product and power branches of BasisSHO and BasisSineDVR equal the ordered "
             "product of their factors, [x,p]=i, DVR variants stay in one basis, Pauli/fermion relations of the literal 2x2 matrices hold "
             "exactly, multi-electron element placement, and copy() forwards every stored constructor parameter. Leaf matrices, power "
-            "formulas, sine integrals, model builders and units are declared undecided.",
+            "formulas, sine integrals, model builders and units are declared undecided."
+            ' The unit conversion table (entries = units per atomic unit, reciprocal constants) and the term lists of TI1DModel / construct_j_matrix (periodic wrap) are decided by folding and abstract runs.',
     "note": "Axioms: ladder leaves and sine-DVR helper integrals denote what they are named after; truncation at the top level ignored "
             "(documented by the property). Branches outside the interpreted fragment are reported as not decided (notes), never guessed.",
     "design_ref": "DESIGN.md 3.10, 4 (C16)",
